@@ -1,4 +1,19 @@
+/-
+  FalconModel.Isa.PpcLift — the parts of the PowerPC lifter mirrored in Lean.  The PPC instruction classes are covered by
+  the three-way differential only (option (C)); what is mirrored is the one non-trivial constant the lifter computes at
+  lift time: the rotate mask of `rlwinm`/`slwi` (`rlwinm_` in lib/translator/ppc/semantics.rs).
+-/
 import FalconModel.Isa.Ppc
 namespace Falcon.Isa.Ppc
+
+/-- `rlwinm_`: `from_mb = 0xffffffff >> mb; to_me = (0xffffffff << (31 - me)) & 0xffffffff;
+    mask = if mb <= me { from_mb & to_me } else { from_mb | to_me }` (u64 arithmetic) -/
+def maskLifter (mb me : Nat) : Nat :=
+  let fromMb := 0xffffffff >>> mb
+  let toMe := (0xffffffff <<< (31 - me)) &&& 0xffffffff
+  if mb ≤ me then fromMb &&& toMe else fromMb ||| toMe
+
+/-- no PPC class is mirrored as IL -/
 def liftBTR (_ws : List (BitVec 32)) (_addr : Nat) : Option BTR := none
+
 end Falcon.Isa.Ppc
